@@ -34,6 +34,7 @@
 -/
 import Lattigo.Proofs.PolyEvalDepth
 import Lattigo.Proofs.PolyEvalScale
+import Lattigo.Proofs.PolyComposite
 import Lattigo.Props.C13Gen
 import Lattigo.Props.C13Ring
 import Mathlib.Tactic.NormNum.Prime
@@ -255,28 +256,38 @@ theorem target_scale (e : Env) [Fact e.t.Prime] (h64 : e.t < 2 ^ 64) (hc : e.che
 example : Nat.Prime 65537 ∧ (705 : ZMod 65537) ≠ 0 ∧ (16321 : ZMod 65537) ≠ 0 ∧ (9 : ZMod 65537) ≠ 0 := by
   refine ⟨by norm_num, by decide, by decide, by decide⟩
 
-/-- the entry guard `level < Depth()` (`⌈log2 d⌉`) is one level short exactly for `d = 2^k`: the run
-    then ends with the final `Rescale` failing at level 0 (an error, after all the work) -/
+/-- `bignum.Polynomial.Depth()` (`⌈log2 d⌉`, the multiplicative depth) is one short of the levels the
+    evaluation consumes exactly for `d = 2^k`.  The evaluator's entry check used `Depth()` (finding C13-9:
+    with two levels per rescaling a power-of-two degree then PANICKED in the level simulation instead of
+    being refused); after the fix it uses `bits.Len64(d) = ⌈log2(d+1)⌉` — `too_few_levels` is exact. -/
 theorem depth_guard_gap (k : Nat) (hk : 1 ≤ k) :
     depthCheck (2 ^ k) = k ∧ polynomialDepth (2 ^ k) + 1 = k + 1 :=
   Lattigo.Model.PolyEval.depth_guard_gap k hk
 
-/-- **too_few_levels**: in the standard mode, below the guard the machine refuses with `err` before
-    emitting any operation (the scale-invariant mode consumes no level and has no guard:
-    `bfv_below_depth_evaluates`) -/
+/-- **too_few_levels**: in the standard mode, with fewer than `⌈log2(d+1)⌉ = bits.Len64(d)` levels the
+    machine refuses with `err` before emitting any operation — exactly below the levels `depth_spec` shows
+    to be consumed (the scale-invariant mode consumes no level and has no guard: `bfv_below_depth_evaluates`) -/
 theorem too_few_levels (env : Env) (hi : env.inv = false) (polys : List (List Int)) (mapping : Option (List (List Nat)))
     (lazy : Bool) (inLevel inScale tScale : Nat) (x : List Int)
-    (h : inLevel < depthCheck ((polys.headD []).length - 1)) :
+    (h : inLevel < bitLen ((polys.headD []).length - 1)) :
     run env polys mapping lazy inLevel inScale tScale x = ([], "err", none) := by
   have hdeg : ¬ ((polys.headD []).length - 1 = 0) := by
-    intro h0; rw [h0] at h; simp [depthCheck] at h
-  have h' : ((inLevel : Nat) : Int) < ((depthCheck ((polys.headD []).length - 1) : Nat) : Int) := by
+    intro h0; rw [h0] at h; simp [bitLen] at h
+  have h' : ((inLevel : Nat) : Int) < ((bitLen ((polys.headD []).length - 1) : Nat) : Int) := by
     exact_mod_cast h
   rw [run_eq]
   simp only [evaluate, evaluateFrom, ex_bind, ex_setP, ex_getP, List.find?, beq_self_eq_true, hdeg,
     if_false, h', hi, Bool.not_false, Bool.true_and, decide_true, if_true, ex_throw]
 
-example : (3 : Nat) < depthCheck (([List.replicate 17 (1 : Int)].headD []).length - 1) := by decide
+/-- … in terms of the documented depth: fewer than `⌈log2(d+1)⌉` levels, `d ≥ 1` -/
+theorem too_few_levels_clog (env : Env) (hi : env.inv = false) (polys : List (List Int)) (d : Nat) (hd : 1 ≤ d)
+    (hp : (polys.headD []).length = d + 1) (mapping : Option (List (List Nat)))
+    (lazy : Bool) (inLevel inScale tScale : Nat) (x : List Int) (h : inLevel < Nat.clog 2 (d + 1)) :
+    run env polys mapping lazy inLevel inScale tScale x = ([], "err", none) := by
+  apply too_few_levels env hi
+  rw [hp, show d + 1 - 1 = d by omega, bitLen_eq_clog d hd]; exact h
+
+example : (4 : Nat) < bitLen (([List.replicate 17 (1 : Int)].headD []).length - 1) := by decide
 
 /-- **constant_polynomial_spec**: a constant polynomial `c` (no mapping; any flags but odd-and-not-even,
     under which a constant is read as 0) is accepted at every input level, consumes no level, and yields
@@ -381,12 +392,62 @@ theorem partial_basis_regenerated :
 /-- **prefilled_basis**: `EvaluateFromPowerBasis` on a basis that already holds `X²` and a lazily
     generated `X³` returns the same operand as `Evaluate` and only emits what is left to do -/
 theorem prefilled_basis :
-    (runFrom (envW true true false) [.gen 2 false, .gen 3 true] [[5, 7, 11, 13, 17]] none true 2 1 1 [2, 3]).2.2.map
-        (fun o => (o.level, o.scale, o.val))
-      = (run (envW true true false) [[5, 7, 11, 13, 17]] none true 2 1 1 [2, 3]).2.2.map (fun o => (o.level, o.scale, o.val)) ∧
-    (runFrom (envW true true false) [.gen 2 false, .gen 3 true] [[5, 7, 11, 13, 17]] none true 2 1 1 [2, 3]).1.length
-      < (run (envW true true false) [[5, 7, 11, 13, 17]] none true 2 1 1 [2, 3]).1.length := by
+    (runFrom { envW true true false with q := [705, 16321, 16577, 15553] } [.gen 2 false, .gen 3 true]
+        [[5, 7, 11, 13, 17]] none true 3 1 1 [2, 3]).2.2.map (fun o => (o.level, o.scale, o.val))
+      = some (0, 1, [439, 1853]) ∧
+    (run { envW true true false with q := [705, 16321, 16577, 15553] }
+        [[5, 7, 11, 13, 17]] none true 3 1 1 [2, 3]).2.2.map (fun o => (o.level, o.scale, o.val))
+      = some (0, 1, [439, 1853]) ∧
+    (runFrom { envW true true false with q := [705, 16321, 16577, 15553] } [.gen 2 false, .gen 3 true]
+        [[5, 7, 11, 13, 17]] none true 3 1 1 [2, 3]).1.length
+      < (run { envW true true false with q := [705, 16321, 16577, 15553] }
+        [[5, 7, 11, 13, 17]] none true 3 1 1 [2, 3]).1.length := by
   decide +kernel
+
+/-! ## composite circuits and changes of basis -/
+
+/-- **interval_normalization_steps**: `inverse.IntervalNormalization` runs `normIters num den` compression
+    steps for `log2max = num/den` (tied to the real loop through a counting bootstrapper), and that is THE
+    least number of steps of factor 2.45 that covers `[-2^log2max, 2^log2max]`:
+    `2.45^n ≥ 2^log2max` and no smaller `n` does -/
+theorem interval_normalization_steps (num den : Nat) (hden : 1 ≤ den) :
+    Covers num den (normIters num den) ∧ ∀ m < normIters num den, ¬ Covers num den m :=
+  normIters_spec num den hden
+
+/-- the step counts of the domains the harness sweeps; `int(log2max/log2(2.45) + 0.5)` (a former coding of
+    the count) gives 2, 3, 5, 6 for `log2max = 3, 4, 7, 8`: one step short, not covering -/
+theorem interval_normalization_steps_values :
+    (List.map (fun m => normIters m 1) [1, 2, 3, 4, 5, 6, 7, 8, 9, 10]) = [1, 2, 3, 4, 4, 5, 6, 7, 7, 8] ∧
+    ¬ Covers 3 1 2 ∧ ¬ Covers 4 1 3 ∧ ¬ Covers 7 1 5 ∧ ¬ Covers 8 1 6 := by
+  decide
+
+/-- **change_of_basis_spec**: the change of basis of `[a, b]` maps `a ↦ -1`, `b ↦ 1` -/
+theorem change_of_basis_spec (a b : Int) (hab : a < b) (h16 : (b - a) ∣ 16) (h8 : (b - a) ∣ 8 * (-a - b)) :
+    (changeOfBasis8 (a, b)).1 * a + (changeOfBasis8 (a, b)).2 = -8 ∧
+    (changeOfBasis8 (a, b)).1 * b + (changeOfBasis8 (a, b)).2 = 8 :=
+  changeOfBasis8_spec a b hab h16 h8
+
+example : ((2 : Int) < 6) ∧ ((6 : Int) - 2) ∣ 16 ∧ ((6 : Int) - 2) ∣ 8 * (-2 - 6) := by decide
+
+/-- **change_of_basis_per_polynomial**: `PolynomialVector.ChangeOfBasis` gives every slot the change of
+    basis of the interval of ITS polynomial (the one the mapping assigns it to), for any intervals of
+    the other polynomials of the vector -/
+theorem change_of_basis_per_polynomial (slots : Nat) (pre post : List (List Nat × (Int × Int)))
+    (m : List Nat) (ab : Int × Int) (j : Nat) (hj : j < slots) (hm : j ∈ m) (hpost : ∀ mi ∈ post, j ∉ mi.1) :
+    let r := changeOfBasisVec8 slots ((pre ++ (m, ab) :: post).map (·.1)) ((pre ++ (m, ab) :: post).map (·.2))
+    r.1.getD j 0 = (changeOfBasis8 ab).1 ∧ r.2.getD j 0 = (changeOfBasis8 ab).2 :=
+  changeOfBasisVec8_own slots pre post m ab j hj hm hpost
+
+/-- the vector of the missed regression: polynomial 0 on `[-1, 1]`, polynomial 1 on `[2, 6]`; slot 1 (mapped
+    to polynomial 1) gets `(1/2, -2)`, not polynomial 0's `(1, 0)` -/
+example : changeOfBasisVec8 2 [[0], [1]] [(-1, 1), (2, 6)] = ([8, 4], [0, -16]) := by decide
+
+/-- `bignum.Polynomial.Evaluate`, Chebyshev basis on `[a, b]` (after fix C13-8: the constant of the change of
+    basis shifts the real part only): `Σ c_i·T_i(u)`, `u = (2x - a - b)/(b - a)` -/
+theorem chebEval_spec (a b x : Int) (coeffs : List Int) :
+    chebEval a b x coeffs = evalBasis (ringOps Int) true ((2 * x - a - b) / (b - a)) coeffs := rfl
+
+example : chebEval 2 4 5 [1, 2, 3] = 1 + 2 * 2 + 3 * (2 * 2 * 2 - 1) := by decide
 
 #print axioms splitDegree_spec
 #print axioms powerbasis_spec_monomial
@@ -408,6 +469,7 @@ theorem prefilled_basis :
 #print axioms target_scale_of_level
 #print axioms target_scale
 #print axioms too_few_levels
+#print axioms too_few_levels_clog
 #print axioms constant_polynomial_spec
 #print axioms mulThenAdd_keeps_degree_two_part
 #print axioms factorize_guard_spec
@@ -419,5 +481,10 @@ theorem prefilled_basis :
 #print axioms bfv_below_depth_evaluates
 #print axioms partial_basis_regenerated
 #print axioms prefilled_basis
+#print axioms interval_normalization_steps
+#print axioms interval_normalization_steps_values
+#print axioms change_of_basis_spec
+#print axioms change_of_basis_per_polynomial
+#print axioms chebEval_spec
 
 end Lattigo.Props.C13
